@@ -151,6 +151,103 @@ fn rough_tokens(src: &str) -> Vec<String> {
     out
 }
 
+
+/// A quoted literal with escapes of every kind, valid and invalid (surrogates, values past the
+/// last code point, short digit runs, octal overflow), in any prefix / quote style.
+pub fn escape_literal(rng: &mut Rng) -> String {
+    let prefix = *rng.pick(&["", "", "", "b", "r", "br", "B", "R", "rb", "bR"]);
+    let q = *rng.pick(&["'", "\"", "'''", "\"\"\""]);
+    let mut body = String::new();
+    for _ in 0..rng.below(4) {
+        match rng.below(12) {
+            0 => body.push(*rng.pick(&['a', 'z', ' ', '0', 'é', '😀', '\u{80}', '\u{7ff}', '\u{800}', '\u{ffff}'])),
+            1 => {
+                body.push('\\');
+                body.push(*rng.pick(&['a', 'b', 'f', 'n', 'r', 't', 'v', '\\', '?', '"', '\'', '`', 'q', 'e', ' ', 'X', 'N']));
+            }
+            2 | 3 => {
+                let v: u32 = *rng.pick(&[0, 0x41, 0x7f, 0x80, 0xff, 0x7ff, 0x800, 0xd7ff, 0xd800, 0xdbff, 0xdc00, 0xdfff, 0xe000, 0xfffd, 0xffff]);
+                body.push_str(&format!("\\u{:04x}", v));
+            }
+            4 | 5 => {
+                let v: u32 = *rng.pick(&[0, 0x41, 0x80, 0xd7ff, 0xd800, 0xdfff, 0xe000, 0xffff, 0x10000, 0x1f600, 0x10ffff, 0x110000, 0x7fffffff, 0xffffffff]);
+                if rng.chance(1, 2) {
+                    body.push_str(&format!("\\U{:08x}", v));
+                } else {
+                    body.push_str(&format!("\\U{:08X}", v));
+                }
+            }
+            6 => body.push_str(&format!("\\x{:02x}", rng.below(256))),
+            7 => body.push_str(&format!("\\{:03o}", rng.below(512))),
+            8 => body.push_str(*rng.pick(&["\\u12", "\\U0001", "\\x4", "\\x", "\\u", "\\7", "\\47", "\\8", "\\uD8", "\\ud800\\udc00", "\\xg0", "\\u00zz"])),
+            9 => body.push_str(&format!("\\u{:04X}", 0xd800 + rng.below(0x800) as u32)),
+            10 => body.push_str(&format!("\\U{:08x}", rng.below(0x120000) as u32)),
+            _ => body.push_str(&format!("\\u{:04x}", rng.below(0x10000) as u32)),
+        }
+    }
+    format!("{}{}{}{}", prefix, q, body, q)
+}
+
+const GAPS: &[&str] = &["", "", " ", "\n", "\n  ", "\r\n", "\t", " \n", "// c\n", "\n\n", "  ", "\n\t"];
+const PREFIXES: &[&str] = &["", "", "", "1 + ", "'ééé' + ", "'''a\nb''' + ", "\"\"\"\n\n\"\"\" +\n", "x.y +\n", "[1,\n2] +", "'😀'+"];
+
+/// A source whose only error is a macro-expansion error, with the byte offset of the argument
+/// the error is about (that argument is a single token, so the position is that token's).
+fn macro_error_source(rng: &mut Rng) -> (String, usize) {
+    let mut s = String::new();
+    s.push_str(*rng.pick(PREFIXES));
+    let gap = |rng: &mut Rng| *rng.pick(GAPS);
+    let start;
+    if rng.chance(1, 3) {
+        s.push_str("has(");
+        s.push_str(gap(rng));
+        start = s.len();
+        s.push_str(*rng.pick(&["m", "x1", "1", "'é'", "2u", "true", "null", "b'x'", "1.5"]));
+        s.push_str(gap(rng));
+        s.push(')');
+    } else {
+        s.push_str(*rng.pick(&["x", "[1]", "a.b", "'s'"]));
+        s.push_str(gap(rng));
+        s.push('.');
+        s.push_str(*rng.pick(&["all", "exists", "exists_one", "map", "filter"]));
+        s.push('(');
+        s.push_str(gap(rng));
+        start = s.len();
+        s.push_str(*rng.pick(&["1", "'é'", "2u", "true", "null", "1.5", "b'x'", "\"v\""]));
+        s.push_str(gap(rng));
+        s.push(',');
+        s.push_str(gap(rng));
+        s.push_str(*rng.pick(&["true", "v", "1"]));
+        s.push_str(gap(rng));
+        s.push(')');
+    }
+    s.push_str(*rng.pick(&["", "", " ", "\n", " + 1", "\n+\n1"]));
+    (s, start)
+}
+
+/// The position the real parser reports for the macro error of `src`.
+fn macro_pos_impl(src: &str) -> String {
+    let s = src.to_string();
+    guarded(move || match cel_parser::Parser::default().parse(&s) {
+        Ok(_) => "(accepted)".into(),
+        Err(errs) => {
+            let m: Vec<_> = errs
+                .errors
+                .iter()
+                .filter(|e| e.msg == "invalid argument to has() macro" || e.msg == "argument must be a simple name")
+                .collect();
+            if m.len() != 1 || errs.errors.len() != 1 {
+                return format!("(other-errors {})", errs.errors.len());
+            }
+            format!("(pos {} {})", m[0].pos.0, m[0].pos.1)
+        }
+    })
+}
+
+pub fn emit_macro_pos(em: &mut Emit, src: &str, start: usize, kind: &str) {
+    em.case(&format!("(posfor {} {})", sx_str(src), start), &macro_pos_impl(src), &format!("nt=1;kind={}", kind), src);
+}
+
 pub fn run(em: &mut Emit, thorough: bool, seed: u64) {
     // witnesses of the defects fixed earlier stay in the stream
     for s in ["", "1 +", "ä", "\"abc", "!-a", "f(1,)", "{1:", "a &&", "$", ") (", "in", "a.in", "/* c */ a", "'\\q'",
@@ -162,6 +259,16 @@ pub fn run(em: &mut Emit, thorough: bool, seed: u64) {
               "1e400", "1e-400", "0.0000000000000000000000000000001e31", "1e99999999999999999999", "0x", "0xg", "1u2",
               "a\n+\nb", "a // c", "// only", "a /", "&", "|", "=", "a = b", "a.b.c(d)[e].f", "[[[[1]]]]", "((((a))))"] {
         emit_src(em, s, "nt=1;kind=corpus");
+    }
+    for s in ["\"\\uD800\"", "'\\udfff'", "b\"\\udc00\"", "\"\\U0000D800\"", "\"\\U00110000\"", "'\\U0010FFFF'", "'\\ud7ff\\ue000'",
+              "\"\\UFFFFFFFF\"", "'''\\uDBFF'''", "b'\\u0080'", "'\\u12'", "'\\777'", "'\\377'", "b'\\400'", "r'\\uD800'", "size('\\uD800')"] {
+        emit_src(em, s, "nt=1;kind=corpus-escapes");
+    }
+    for (s, st) in [("has(m)", 4usize), ("has(\nm)", 5), ("has(\n  m)", 7), ("has(\r\nm)", 6), ("'ééé' +\nhas(m)", 15), ("'ééé' + has(1)", 15),
+                    ("x.all(1, true)", 6), ("x.map(\n'é', 1)", 7), ("x.\nfilter(\n\n2u,\n1)", 12), ("'''a\nb''' + has(\nm)", 17),
+                    ("has(\nm)\n", 5), ("\nhas(m)", 5)] {
+        emit_src(em, s, "nt=1;kind=corpus-macro-pos");
+        emit_macro_pos(em, s, st, "corpus-macro-pos");
     }
     // exhaustive token strings
     let maxlen = if thorough { 5 } else { 4 };
@@ -189,6 +296,23 @@ pub fn run(em: &mut Emit, thorough: bool, seed: u64) {
         let toks: Vec<&str> = (0..len).map(|_| *rng.pick(TOKENS)).collect();
         let sep = if rng.chance(1, 4) { "" } else { " " };
         emit_src(em, &toks.join(sep), "nt=1;kind=rnd-tokens");
+    }
+    // literals with every kind of escape, alone and inside expressions
+    for _ in 0..n {
+        let lit = escape_literal(&mut rng);
+        let src = match rng.below(5) {
+            0 => format!("size({})", lit),
+            1 => format!("{} + {}", lit, escape_literal(&mut rng)),
+            2 => format!("[{}, {}]", lit, *rng.pick(TOKENS)),
+            _ => lit,
+        };
+        emit_src(em, &src, "nt=1;kind=escapes");
+    }
+    // macro-expansion errors: the reported position is the model's pos_for at the argument
+    for _ in 0..(n / 2) {
+        let (src, start) = macro_error_source(&mut rng);
+        emit_src(em, &src, "nt=1;kind=macro-pos-src");
+        emit_macro_pos(em, &src, start, "macro-pos");
     }
     // grammar-generated valid expressions and their single-token mutations
     let (_, tys) = extreme_ctx(&mut rng, false);
